@@ -1,7 +1,13 @@
-//! e5_harness — what the end-to-end (compiled dylib) legs of E5 share: seed expansion into the
+//! harness — what the end-to-end (compiled dylib) legs of E5 share: seed expansion into the
 //! decision bytes `CompiledSim::fuzz_repro` consumes, one-instance execution with verdict and
 //! scheduler-log capture, the batch loop (shards, violation grouping, in-process reproduction,
 //! byte minimisation, replay files, per-leg result JSON), and log parsing helpers.
+//!
+//! Everything in the `cfg(test)` modules of this crate except `use` lines is marked
+//! `#[cfg(stageleft_runtime)]`: the repository's simulator compiles a *staged copy* of this crate
+//! (stageleft drops every `impl` block and `#[test]` fn from it and would otherwise try to compile
+//! the harness there as well); items with that attribute are left out of the copy, so editing the
+//! harness never invalidates the compiled simulator dylibs.
 //!
 //! The contract with the wrapper (`e5_hydrosim` binary, `e2e.rs`) is a set of environment
 //! variables in and one JSON file out:
@@ -27,9 +33,11 @@ use serde_json::{Value, json};
 // (copies of the three simcore primitives used here: this crate is also compiled inside the
 // simulator's trybuild project, whose dependency set must not change behind its back)
 
+#[cfg(stageleft_runtime)]
 /// SplitMix64.
 #[derive(Clone, Debug)]
 pub struct SplitMix64(pub u64);
+#[cfg(stageleft_runtime)]
 impl SplitMix64 {
     #[inline]
     pub fn next(&mut self) -> u64 {
@@ -41,6 +49,7 @@ impl SplitMix64 {
     }
 }
 
+#[cfg(stageleft_runtime)]
 /// Mix several integers into one seed (order sensitive); identical to `simcore::mix`.
 pub fn mix(parts: &[u64]) -> u64 {
     let mut s = SplitMix64(0x243F_6A88_85A3_08D3);
@@ -52,6 +61,7 @@ pub fn mix(parts: &[u64]) -> u64 {
     acc
 }
 
+#[cfg(stageleft_runtime)]
 pub fn fnv_str(s: &str) -> u64 {
     let mut h = 0xcbf2_9ce4_8422_2325u64;
     for b in s.as_bytes() {
@@ -61,15 +71,19 @@ pub fn fnv_str(s: &str) -> u64 {
     h
 }
 
+#[cfg(stageleft_runtime)]
 pub const ENGINE: &str = "e5_hydrosim";
+#[cfg(stageleft_runtime)]
 /// `fuzz_repro` builds its byte driver with default options, i.e. `max_len = 4096`: only the
 /// first 4096 bytes of the input are ever consumed (afterwards the driver answers zeros).
 pub const EFFECTIVE_BYTES: usize = 4096;
 
+#[cfg(stageleft_runtime)]
 pub fn verif_dir() -> PathBuf {
     PathBuf::from(std::env::var("VERIF_DIR").unwrap_or_else(|_| "/verif".into()))
 }
 
+#[cfg(stageleft_runtime)]
 #[derive(Clone, Debug)]
 pub struct Cfg {
     pub prop: String,
@@ -83,6 +97,7 @@ pub struct Cfg {
     pub max_s: f64,
 }
 
+#[cfg(stageleft_runtime)]
 /// `None` when this test process was not asked to serve `prop` (plain `cargo test` runs, or a
 /// wrapper invocation for another property): the test then returns immediately.
 pub fn cfg_for(prop: &str) -> Option<Cfg> {
@@ -110,6 +125,7 @@ pub fn cfg_for(prop: &str) -> Option<Cfg> {
     })
 }
 
+#[cfg(stageleft_runtime)]
 /// The decision bytes of one run: a pure function of the run seed.
 pub fn bytes_for(run_seed: u64, len: usize) -> Vec<u8> {
     let mut r = SplitMix64(run_seed ^ 0x5EED_B17E_5EED_B17E);
@@ -121,14 +137,17 @@ pub fn bytes_for(run_seed: u64, len: usize) -> Vec<u8> {
     out
 }
 
+#[cfg(stageleft_runtime)]
 /// Small per-run PRNG for workload knobs (separate stream from the decision bytes).
 pub fn knob_rng(run_seed: u64) -> SplitMix64 {
     SplitMix64(run_seed ^ 0x4B4E_4F42_4B4E_4F42)
 }
+#[cfg(stageleft_runtime)]
 pub fn below(r: &mut SplitMix64, n: u64) -> u64 {
     if n == 0 { 0 } else { r.next() % n }
 }
 
+#[cfg(stageleft_runtime)]
 pub fn hex(b: &[u8]) -> String {
     let mut s = String::with_capacity(b.len() * 2);
     for x in b {
@@ -136,6 +155,7 @@ pub fn hex(b: &[u8]) -> String {
     }
     s
 }
+#[cfg(stageleft_runtime)]
 pub fn unhex(s: &str) -> Vec<u8> {
     (0..s.len() / 2).filter_map(|i| u8::from_str_radix(&s[2 * i..2 * i + 2], 16).ok()).collect()
 }
@@ -143,6 +163,7 @@ pub fn unhex(s: &str) -> Vec<u8> {
 // ---------------------------------------------------------------------------------------------
 // One instance
 
+#[cfg(stageleft_runtime)]
 #[derive(Clone, Debug, PartialEq, Eq)]
 pub enum Verdict {
     /// the test body ran to completion
@@ -152,6 +173,7 @@ pub enum Verdict {
     /// a panic: (message, file:line of the panic site)
     Panic(String, String),
 }
+#[cfg(stageleft_runtime)]
 impl Verdict {
     pub fn text(&self) -> String {
         match self {
@@ -162,11 +184,14 @@ impl Verdict {
     }
 }
 
+#[cfg(stageleft_runtime)]
 thread_local! {
     static LAST_PANIC: std::cell::RefCell<Option<(String, String)>> = const { std::cell::RefCell::new(None) };
 }
+#[cfg(stageleft_runtime)]
 static HOOK: std::sync::Once = std::sync::Once::new();
 
+#[cfg(stageleft_runtime)]
 pub fn install_quiet_panic_hook() {
     HOOK.call_once(|| {
         let prev = std::panic::take_hook();
@@ -187,10 +212,12 @@ pub fn install_quiet_panic_hook() {
         }));
     });
 }
+#[cfg(stageleft_runtime)]
 thread_local! {
     static IN_INSTANCE: std::cell::Cell<bool> = const { std::cell::Cell::new(false) };
 }
 
+#[cfg(stageleft_runtime)]
 /// Run one simulation instance of `compiled` under the decision bytes `bytes`; `body` is the test
 /// side (sends inputs, awaits outputs, records observations). Returns the verdict and the
 /// scheduler's decision log (uncoloured).
@@ -223,7 +250,9 @@ pub fn run_instance(compiled: &CompiledSim, bytes: &[u8], body: impl AsyncFnOnce
     (verdict, log)
 }
 
+#[cfg(stageleft_runtime)]
 struct LogSink<'a>(&'a Mutex<Vec<u8>>);
+#[cfg(stageleft_runtime)]
 impl std::io::Write for LogSink<'_> {
     fn write(&mut self, buf: &[u8]) -> std::io::Result<usize> {
         self.0.lock().unwrap_or_else(|e| e.into_inner()).extend_from_slice(buf);
@@ -234,10 +263,12 @@ impl std::io::Write for LogSink<'_> {
     }
 }
 
+#[cfg(stageleft_runtime)]
 pub fn take_last_panic() -> (String, String) {
     LAST_PANIC.with(|p| p.borrow_mut().take()).unwrap_or_default()
 }
 
+#[cfg(stageleft_runtime)]
 /// Is this panic site inside code under test (the repository or a dependency) rather than in
 /// harness/test-body code of the flows crate?
 pub fn panic_in_sut(loc: &str) -> bool {
@@ -248,6 +279,7 @@ pub fn panic_in_sut(loc: &str) -> bool {
 // ---------------------------------------------------------------------------------------------
 // Scheduler-log parsing
 
+#[cfg(stageleft_runtime)]
 /// One hook release line of the scheduler log.
 #[derive(Clone, Debug, PartialEq, Eq)]
 pub struct Release {
@@ -258,6 +290,7 @@ pub struct Release {
     /// inside a `Running Tick` block (otherwise a top-level observation)
     pub in_tick: bool,
 }
+#[cfg(stageleft_runtime)]
 #[derive(Clone, Debug, Default)]
 pub struct ParsedLog {
     /// per scheduled tick: the releases of its batch/snapshot hooks, in log order
@@ -268,6 +301,7 @@ pub struct ParsedLog {
     pub observations: Vec<Release>,
 }
 
+#[cfg(stageleft_runtime)]
 /// Parse the (uncoloured) scheduler log written by `run_with_scheduler_and_logger`.
 pub fn parse_log(log: &str) -> ParsedLog {
     let mut out = ParsedLog::default();
@@ -310,6 +344,7 @@ pub fn parse_log(log: &str) -> ParsedLog {
     out
 }
 
+#[cfg(stageleft_runtime)]
 impl Release {
     /// Did this release hand something *new* to the tick (C36: every scheduled tick must)?
     pub fn is_new(&self) -> bool {
@@ -345,6 +380,7 @@ impl Release {
 // ---------------------------------------------------------------------------------------------
 // Batch loop
 
+#[cfg(stageleft_runtime)]
 #[derive(Clone, Debug, Default)]
 pub struct RunOut {
     pub violation: Option<(String, String)>,
@@ -362,6 +398,7 @@ pub struct RunOut {
     /// human readable trace (only produced when asked for samples / replay)
     pub text: Vec<String>,
 }
+#[cfg(stageleft_runtime)]
 impl RunOut {
     pub fn fail(&mut self, class: impl Into<String>, detail: impl Into<String>) {
         if self.violation.is_none() {
@@ -373,6 +410,7 @@ impl RunOut {
     }
 }
 
+#[cfg(stageleft_runtime)]
 pub struct RunIn<'a> {
     /// run index within the batch (u64::MAX in replay mode)
     pub run: u64,
@@ -384,6 +422,7 @@ pub struct RunIn<'a> {
     pub deep: bool,
 }
 
+#[cfg(stageleft_runtime)]
 /// What a post-batch pass (e.g. C38's cross-process comparison of sampled runs) reports.
 #[derive(Default)]
 pub struct PostOut {
@@ -393,12 +432,14 @@ pub struct PostOut {
     pub harness_error: Option<String>,
 }
 
+#[cfg(stageleft_runtime)]
 pub struct Scenario<'a> {
     pub name: &'static str,
     pub weight: u64,
     pub run: Box<dyn Fn(&RunIn<'_>) -> RunOut + 'a>,
 }
 
+#[cfg(stageleft_runtime)]
 pub struct PropMeta {
     pub id: &'static str,
     pub quick_runs: u64,
@@ -411,6 +452,7 @@ pub struct PropMeta {
     pub required_probes: &'static [&'static str],
 }
 
+#[cfg(stageleft_runtime)]
 fn scenario_for(scs: &[Scenario<'_>], r: u64) -> usize {
     let tot: u64 = scs.iter().map(|s| s.weight).sum();
     let mut x = r % tot;
@@ -423,10 +465,12 @@ fn scenario_for(scs: &[Scenario<'_>], r: u64) -> usize {
     0
 }
 
+#[cfg(stageleft_runtime)]
 pub fn run_seed(root: u64, scenario: &str, r: u64) -> u64 {
     mix(&[root, fnv_str(ENGINE), fnv_str(scenario), r])
 }
 
+#[cfg(stageleft_runtime)]
 fn run_guarded(sc: &Scenario<'_>, inp: &RunIn<'_>) -> RunOut {
     match catch_unwind(AssertUnwindSafe(|| (sc.run)(inp))) {
         Ok(o) => o,
@@ -437,6 +481,7 @@ fn run_guarded(sc: &Scenario<'_>, inp: &RunIn<'_>) -> RunOut {
     }
 }
 
+#[cfg(stageleft_runtime)]
 /// Shrink the decision bytes while the same violation class persists: cut the tail, then zero
 /// chunks (a zero byte is the byte driver's own "out of input" answer).
 fn minimise(sc: &Scenario<'_>, seed: u64, bytes: Vec<u8>, class: &str, budget: usize) -> Vec<u8> {
@@ -483,6 +528,7 @@ fn minimise(sc: &Scenario<'_>, seed: u64, bytes: Vec<u8>, class: &str, budget: u
     b
 }
 
+#[cfg(stageleft_runtime)]
 pub fn repo_head() -> String {
     std::process::Command::new("git")
         .args(["-C", "/repo", "rev-parse", "HEAD"])
@@ -492,6 +538,7 @@ pub fn repo_head() -> String {
         .unwrap_or_default()
 }
 
+#[cfg(stageleft_runtime)]
 /// Entry point of an end-to-end property test. Never panics for a *violation* (that is data in
 /// the result JSON); panics (=> the Rust test fails => the wrapper exits 2) only on harness errors.
 pub fn drive(cfg: &Cfg, meta: &PropMeta, scenarios: Vec<Scenario<'_>>, post: Option<&dyn Fn() -> PostOut>) {
@@ -678,6 +725,7 @@ pub fn drive(cfg: &Cfg, meta: &PropMeta, scenarios: Vec<Scenario<'_>>, post: Opt
     );
 }
 
+#[cfg(stageleft_runtime)]
 fn replay(meta: &PropMeta, scenarios: &[Scenario<'_>], path: &PathBuf) {
     let s = std::fs::read_to_string(path).unwrap_or_else(|e| panic!("HARNESS: cannot read replay {}: {e}", path.display()));
     let v: Value = serde_json::from_str(&s).unwrap_or_else(|e| panic!("HARNESS: bad replay json: {e}"));
@@ -700,6 +748,7 @@ fn replay(meta: &PropMeta, scenarios: &[Scenario<'_>], path: &PathBuf) {
     }
 }
 
+#[cfg(stageleft_runtime)]
 pub fn hash_str(h: u64, s: &str) -> u64 {
     let mut h = h;
     for b in s.as_bytes() {
@@ -708,14 +757,17 @@ pub fn hash_str(h: u64, s: &str) -> u64 {
     }
     h
 }
+#[cfg(stageleft_runtime)]
 pub const FNV0: u64 = 0xcbf2_9ce4_8422_2325;
 
+#[cfg(stageleft_runtime)]
 /// A value built on first use (a compiled flow: a shard process only pays for the flows of the
 /// scenarios it actually runs).
 pub struct Lazy<T> {
     cell: std::cell::OnceCell<T>,
     init: Box<dyn Fn() -> T>,
 }
+#[cfg(stageleft_runtime)]
 impl<T> Lazy<T> {
     pub fn new(init: impl Fn() -> T + 'static) -> Self {
         Lazy { cell: std::cell::OnceCell::new(), init: Box::new(init) }
